@@ -27,7 +27,8 @@ SRC_DIRS = [
 
 def setup_paths(repo: str | None = None):
     repo = repo or REPO
-    want = [os.path.join(VERIF, "replay_support")] + [os.path.join(repo, d) for d in SRC_DIRS] + [VERIF]
+    want = [os.path.join(VERIF, "replay_support")] + [os.path.join(repo, d) for d in SRC_DIRS] + [
+        VERIF, os.path.join(VERIF, "lemmas", "py")]
     for p in reversed(want):
         if p not in sys.path:
             sys.path.insert(0, p)
@@ -99,6 +100,17 @@ def check_once(contract_cls, fn, args: dict, clauses=None):
             return "skipped", []
     except Exception as e:
         return "skipped", [("requires-raised", repr(e))]
+    # assumed lemma instances (assume_*) are part of the hypotheses: inputs outside them are not counterexamples
+    for name in dir(contract_cls):
+        if name.startswith("assume_"):
+            try:
+                if not getattr(contract_cls, name)(**args):
+                    return "skipped", []
+            except Exception as e:
+                from .dsl import NotNative
+                if isinstance(e, NotNative):
+                    continue
+                return "skipped", [("requires-raised", repr(e))]
     old = SimpleNamespace(**{k: safe_deepcopy(v) for k, v in args.items()})
     failures = []
     raised = None
